@@ -223,7 +223,7 @@ impl Property for C19 {
         "C19"
     }
     fn cases(&self, cfg: &Cfg) -> u64 {
-        cfg.tier.pick(4_000, 400_000)
+        cfg.tier.pick(30_000, 400_000)
     }
     fn run_case(&self, cfg: &Cfg, i: u64, acc: &mut Acc) {
         let mut r = Rng::keyed(&[cfg.seed, 19, i]);
